@@ -114,41 +114,42 @@ def parse_condition(text: str):
 
 
 MODAL = {"MUSS": "MUSS", "M": "MUSS", "SOLL": "SOLL", "S": "SOLL", "KANN": "KANN", "K": "KANN"}
-IND_RE = re.compile(r"\s*(?P<mm>[Mm][Uu][Ss][Ss]|[Ss][Oo][Ll][Ll]|[Kk][Aa][Nn][Nn]|[MmSsKk])(?![A-Za-z])")
-PO_RE = re.compile(r"\s*(?P<po>[XxOoUu])(?![A-Za-z])")
+IND_RE = re.compile(r"(?P<mm>[Mm][Uu][Ss][Ss]|[Ss][Oo][Ll][Ll]|[Kk][Aa][Nn][Nn]|[MmSsKk])(?![A-Za-z])")
+PO_RE = re.compile(r"(?P<po>[XxOoUu])(?![A-Za-z])")
+NEXT_MM = re.compile(r"[MmSsKk]")
 
 
 def parse_ahb(text: str) -> List[Tuple[str, str, Optional[str]]]:
-    """Split an AHB expression into [(indicator kind 'mm'|'po', written indicator, condition text | None)]."""
-    parts: List[Tuple[str, str, Optional[str]]] = []
-    pos = 0
+    """Split an AHB expression into [(indicator kind 'mm'|'po', written indicator, condition text | None)].
+    Forms: (MM CE)+ | (MM CE)+ MM | PO CE | PO | MM. No whitespace before the first indicator (the AHB grammar ignores
+    none); whitespace elsewhere belongs to the condition expression in front of it."""
     m = PO_RE.match(text)
     if m:
         rest = text[m.end():]
-        if rest.strip():
-            parse_condition(rest)
-            return [("po", m.group("po"), rest)]
-        return [("po", m.group("po"), None)]
+        if rest == "":
+            return [("po", m.group("po"), None)]
+        parse_condition(rest)
+        return [("po", m.group("po"), rest)]
+    parts: List[Tuple[str, str, Optional[str]]] = []
+    pos = 0
     while True:
         m = IND_RE.match(text, pos)
         if not m:
             raise RefSyntaxError(f"indicator expected at {pos}")
         pos = m.end()
-        nxt = re.compile(r"[MmSsKk]").search(text, pos)
+        nxt = NEXT_MM.search(text, pos)
         end = nxt.start() if nxt else len(text)
         cond = text[pos:end]
-        if cond.strip():
-            parse_condition(cond)
-            parts.append(("mm", m.group("mm"), cond))
-        else:
+        if cond == "":
+            if end != len(text):
+                raise RefSyntaxError("a bare modal mark must be last")
             parts.append(("mm", m.group("mm"), None))
-            if end != len(text) and not text[end:].strip() == "":
-                raise RefSyntaxError("bare modal mark must be last")
-        pos = end
-        if pos >= len(text) or not text[pos:].strip():
             break
-    if any(c is None for (_, _, c) in parts[:-1]):
-        raise RefSyntaxError("bare modal mark must be last")
+        parse_condition(cond)
+        parts.append(("mm", m.group("mm"), cond))
+        pos = end
+        if pos >= len(text):
+            break
     return parts
 
 
